@@ -819,6 +819,42 @@ def make_variant(rng, base, aspect, t):
     elif aspect == "validation":
         # the same experiment, hashed after Experiment.validateExperiment(checkExecutables=True) (what elaunch does)
         v["validate"] = not base.get("validate")
+    elif aspect == "content-swap":
+        # two files that the arguments of the target name (at different places) exchange their contents: the files
+        # that are consumed are the same multiset, the arguments "after each reference has been replaced by the hash
+        # of the content it refers to" are not
+        def fid(r):
+            if r["kind"] in ("input", "data"):
+                return (r["kind"], r["file"])
+            if r["file"] or r["method"] == "output":
+                return ("comp", r["prod"], r["file"] or "out.stdout")
+            return None
+
+        def get(f):
+            if f[0] == "comp":
+                return (v["comps"][f[1]].get("out") or {}).get(f[2])
+            return next(rr["content"] for cc in v["comps"] for rr in cc["refs"] if (rr["kind"], rr["file"]) == f)
+
+        def put(f, content):
+            if f[0] == "comp":
+                v["comps"][f[1]]["out"][f[2]] = content
+            else:
+                for cc in v["comps"]:
+                    for rr in cc["refs"]:
+                        if (rr["kind"], rr["file"]) == f:
+                            rr["content"] = content
+        named = sorted({fid(r) for k, r in enumerate(c["refs"]) if r["method"] in ARG_METHODS and in_arguments(c, k)
+                        and fid(r) is not None and not r.get("missing")})
+        named = [f for f in named if get(f) is not None]
+        cands = [(f1, f2) for i1, f1 in enumerate(named) for f2 in named[i1 + 1:] if get(f1) != get(f2)]
+        if not cands:
+            return None
+        f1, f2 = rng.choice(cands)
+        c1, c2 = get(f1), get(f2)
+        put(f1, c2)
+        put(f2, c1)
+        exp["swapped"] = [list(f1), list(f2)]
+        exp["direct"] = sum(1 for f in (f1, f2) if f[0] != "comp")
     else:
         raise ValueError(aspect)
     return v, exp
@@ -875,6 +911,16 @@ def oracle_pair(ctx, case, base_obs, var_obs, exp, base):
             elif V[k]["strong"] == B[k]["strong"]:
                 fail("different-work-same-strong-hash:" + aspect)
             elif V[k]["fuzzy"] != B[k]["fuzzy"]:
+                fail("fuzzy-hash-depends-on-produced-contents")
+    elif aspect == "content-swap":
+        for k in tkeys:
+            if V[k]["strong"] is None or V[k]["fuzzy"] is None:
+                fail("no-hash-although-every-input-is-present")
+            elif V[k]["strong"] == B[k]["strong"]:
+                fail("different-work-same-strong-hash:" + aspect)
+            elif exp.get("direct") and V[k]["fuzzy"] == B[k]["fuzzy"]:
+                fail("different-work-same-fuzzy-hash:" + aspect)
+            elif not exp.get("direct") and V[k]["fuzzy"] != B[k]["fuzzy"]:
                 fail("fuzzy-hash-depends-on-produced-contents")
     elif aspect == "producer-exe":
         p = exp["changed"]
@@ -2837,11 +2883,133 @@ def corpus_exe_histories():
     return [{"kind": "history", "spec": spec, "steps": steps, "must_build": True}]
 
 
-def gen_pairs(rng, nworlds, per_world):
+# ----------------------------------------------------------------------------------------
+# reference spellings that contain each other
+# ----------------------------------------------------------------------------------------
+# `\b` of the substitution sees a boundary at every `-`: the spelling `prod/out.txt:ref` is, at word boundaries, the
+# tail of `x-prod/out.txt:ref` (and of `stage0.x-prod/out.txt:ref`); `data/a.txt:ref` is the tail of the reference to
+# the file a.txt of a producer called `my-data`.  Whatever the names: every reference stands for the content IT refers
+# to, at the places where IT is written.
+
+NEST_STEMS = ["prod", "calc", "sim3", "a1", "data", "input", "prod", "run0"]
+NEST_PRE = ["x-", "a-", "my-", "y-", "u-", "B-", "zz-", "x-y-"]
+NEST_CONTENTS = ["PPPP\n", "QQQQ\n", "RRRR\n", "SSS", "1 2 3", "hello\nworld\n"]
+NEST_ASPECTS = ["producer-name", "producer-name", "producer-name", "content-swap", "content-swap", "content-swap",
+                "produced-content", "order", "name", "location", "twin-same", "stage", "args", "method"]
+
+
+def gen_nested_world(rng):
+    stem = rng.choice(NEST_STEMS)
+    direct = stem in ("data", "input")
+    shape = "file" if direct else rng.choice(["file", "file", "file", "dir", "stdout"])
+    method = rng.choice(["ref", "ref", "output"]) if shape == "file" else ("ref" if shape == "dir" else "output")
+    fn = rng.choice(["out.txt", "r.csv", "a.txt"]) if shape == "file" else None
+    pres = rng.sample(NEST_PRE, rng.choice([1, 2, 2, 3]))
+    names = [p + stem for p in pres] + ([] if direct else [stem])
+    rng.shuffle(names)
+    contents = rng.sample(NEST_CONTENTS, len(pres) + 1)
+    comps = []
+    for nm, content in zip(names, contents):
+        comps.append(_comp(nm, 0, rng.choice(["/bin/echo", "/bin/cat", "exe2"]), [[{"l": rng.choice(WORDS)}]],
+                           out={(fn or ("out.stdout" if shape == "stdout" else "out.txt")): content}))
+    refs = []
+    for j, nm in enumerate(names):
+        refs.append({"kind": "comp", "file": fn, "method": method, "prod": j,
+                     "abs": nm != stem and rng.random() < 0.3, "content": None, "missing": False})
+    if direct:
+        refs.append({"kind": stem, "file": fn, "method": method, "prod": None, "abs": False,
+                     "content": contents[-1], "missing": False})
+    if rng.random() < 0.3:
+        refs.append({"kind": rng.choice(["input", "data"]), "file": "conf.json", "method": rng.choice(["ref", "copy"]),
+                     "prod": None, "abs": False, "content": "{}", "missing": False})
+    parts = [[{"l": rng.choice(WORDS)}] for _ in range(rng.randint(0, 2))]
+    for k, r in enumerate(refs):
+        if r["method"] not in ARG_METHODS:
+            continue
+        for _ in range(rng.choice([1, 1, 1, 2])):
+            part = []
+            pre = rng.choice(PREFIXES)
+            if pre:
+                part.append({"l": pre})
+            part.append({"r": k})
+            suf = rng.choice(SUFFIXES).strip()
+            if suf:
+                part.append({"l": suf})
+            parts.insert(rng.randint(0, len(parts)), part)
+    cons = _comp(rng.choice(["consumer", "merge", "zz", "a"]), 0, rng.choice(["paste", "/bin/cat", "python"]), parts, refs)
+    ro = list(range(len(refs)))
+    rng.shuffle(ro)
+    cons["reforder"] = ro
+    comps.append(cons)
+    return {"comps": comps, "order": None, "mtime": None, "loc": "w"}
+
+
+def nested_fresh_name(rng, spec, old):
+    """a new name for a producer: another prefix in front of the same stem, a prefix in front of the name of another
+    component, the stem alone, or an unrelated name"""
+    used = {c["name"] for c in spec["comps"]}
+    cands = ["work", "calc7", "step7"]
+    if "-" in old:
+        rest = old.split("-", 1)[1]
+        cands += [p + rest for p in ("u-", "v-", "A-", "zz-", "w-q-")] + [rest, rest.split("-")[-1]]
+    for other in sorted(used - {old}):
+        cands += [p + other for p in ("u-", "v-", "A-", "zz-")]
+    cands = [nm for nm in cands if nm not in used]
+    return rng.choice(cands)
+
+
+def gen_nested_pairs(rng, nworlds, per_world):
     pairs = []
     for _ in range(nworlds):
-        base = gen_world(rng)
-        aspects = RELEVANT + IRRELEVANT + OTHER
+        base = gen_nested_world(rng)
+        t = len(base["comps"]) - 1
+        made = 0
+        tries = 0
+        while made < per_world and tries < per_world * 4:
+            tries += 1
+            aspect = rng.choice(NEST_ASPECTS)
+            if aspect == "producer-name":
+                v = copy.deepcopy(base)
+                p = rng.randrange(t)
+                v["comps"][p]["name"] = nested_fresh_name(rng, v, v["comps"][p]["name"])
+                res = (v, {"aspect": aspect, "target": t, "renamed": p})
+            else:
+                res = make_variant(rng, base, aspect, t)
+            if res is None:
+                continue
+            pairs.append({"kind": "pair", "base": base, "variant": res[0], "exp": res[1]})
+            made += 1
+    return pairs
+
+
+def corpus_nested_cases():
+    """a consumer of three producers prod, x-prod, y-prod (relative spellings): the other two renamed; the contents of
+    their files exchanged"""
+    def link(p):
+        return {"kind": "comp", "file": "out.txt", "method": "ref", "prod": p, "abs": False, "content": None,
+                "missing": False}
+    base = {"comps": [_comp("x-prod", 0, "/bin/echo", [[{"l": "first"}]], out={"out.txt": "PPPP\n"}),
+                      _comp("y-prod", 0, "/bin/echo", [[{"l": "second"}]], out={"out.txt": "QQQQ\n"}),
+                      _comp("prod", 0, "/bin/echo", [[{"l": "third"}]], out={"out.txt": "RRRR\n"}),
+                      _comp("consumer", 0, "paste", [[{"l": "-d,"}], [{"r": 0}], [{"r": 1}], [{"r": 2}]],
+                            [link(0), link(1), link(2)])],
+            "order": None, "mtime": None, "loc": "w"}
+    sw = copy.deepcopy(base)
+    sw["comps"][0]["out"]["out.txt"], sw["comps"][1]["out"]["out.txt"] = "QQQQ\n", "PPPP\n"
+    rn = copy.deepcopy(base)
+    rn["comps"][0]["name"], rn["comps"][1]["name"] = "a-prod", "B-prod"
+    return [{"kind": "pair", "base": base, "variant": sw, "must_build": True,
+             "exp": {"aspect": "content-swap", "target": 3, "swapped": [["comp", 0, "out.txt"], ["comp", 1, "out.txt"]],
+                     "direct": 0}},
+            {"kind": "pair", "base": base, "variant": rn, "exp": {"aspect": "producer-name", "target": 3},
+             "must_build": True}]
+
+
+def gen_pairs(rng, nworlds, per_world, aspects=None, allow_repl=True):
+    pairs = []
+    for _ in range(nworlds):
+        base = gen_world(rng, allow_repl=allow_repl) if not allow_repl else gen_world(rng)
+        aspects = aspects or (RELEVANT + IRRELEVANT + OTHER)
         tries = 0
         made = 0
         while made < per_world and tries < per_world * 4:
@@ -2976,6 +3144,11 @@ def run(ctx):
         if h is not None:
             histories.append(h)
     check_histories(ctx, histories)
+    # reference spellings that contain each other at word boundaries (producers prod / x-prod / my-prod, data/f and a
+    # producer my-data), every order of names and of the references; contents exchanged between the places of the
+    # arguments (last: the random stream of the parts above is the one earlier versions of this check used)
+    check_pairs(ctx, corpus_nested_cases() + gen_nested_pairs(rng, 10 if quick else 120, 4)
+                + gen_pairs(rng, 6 if quick else 60, 2, aspects=["content-swap"], allow_repl=False))
 
 
 def replay(ctx, doc):
